@@ -326,7 +326,11 @@ func (mvgenSlice) Gen(r *rand.Rand, _ int, tier string) ([]string, []string) {
 		if variant == "ts" && invKind != "ts-codec" {
 			c = "h264"
 		}
-		tracks = append(tracks, mvGenTrack{codec: c, rate: 90000, alt: r.Intn(2)})
+		alt := r.Intn(2)
+		if c == "vp9" {
+			alt = r.Intn(4) // pair (2,3): profile 2 at 10 and 12 bits, same size - a change of the bit depth only
+		}
+		tracks = append(tracks, mvGenTrack{codec: c, rate: 90000, alt: alt})
 	}
 	for i := 0; i < nAudio; i++ {
 		c := []string{"aac", "aac", "opus"}[r.Intn(3)]
@@ -453,7 +457,7 @@ func (mvgenSlice) Gen(r *rand.Rand, _ int, tier string) ([]string, []string) {
 			}
 			if k > 0 && r.Intn(4) == 0 {
 				// parameter change on this random-access unit
-				curAlt[lead] = 1 - curAlt[lead]
+				curAlt[lead] ^= 1 // the other member of the pair (0,1) or (2,3)
 				p := mvParsedFor(lt.codec, curAlt[lead])
 				ops = append(ops, fmt.Sprintf("par t=%d alt=%d pf=%s res=%s fps=%s", lead, curAlt[lead], p.pf, p.res, p.fps))
 				carries = 1
@@ -470,7 +474,7 @@ func (mvgenSlice) Gen(r *rand.Rand, _ int, tier string) ([]string, []string) {
 		}
 		if mvIsVideoName(lt.codec) && k > 1 && !f13 && r.Intn(25) == 0 {
 			// F13: a second random-access unit at the SAME DTS with changed parameters
-			curAlt[lead] = 1 - curAlt[lead]
+			curAlt[lead] ^= 1 // the other member of the pair (0,1) or (2,3)
 			p := mvParsedFor(lt.codec, curAlt[lead])
 			ops = append(ops, fmt.Sprintf("par t=%d alt=%d pf=%s res=%s fps=%s", lead, curAlt[lead], p.pf, p.res, p.fps))
 			ops = append(ops, fmt.Sprintf("w t=%d dts=%d ra=1 p=1", lead, dtsOf(lead, k, false)))
@@ -1506,5 +1510,13 @@ func init() {
 		} else {
 			panic("mvgen: no AV1 sequence header with a colour description could be derived")
 		}
+	}
+}
+
+
+func init() {
+	// VP9 key frames of profile 2 that differ in the bit depth only (muxer_other.go builds the headers)
+	for _, par := range []int{4, 5} {
+		mvVP9Frames = append(mvVP9Frames, append(vp9KeyHeader(par), 0x30, 0x38, 0x24, 0x1c, 0x19, 0x40, 0x18, 0x03, 0x40, 0x5f, 0xb4))
 	}
 }
